@@ -215,7 +215,7 @@ VARIABLES svS,    \* index of the session being replayed
           svN     \* events consumed so far
 tvars == <<svS, svL, svN>>
 
-DevKinds == {"dropreq", "intval", "enum", "lit"}
+DevKinds == {"dropreq", "intval", "enum", "lit", "nested"}
 RootName(r) == r.kind \o ":" \o r.name
 
 \* Structure(j, T) returned
